@@ -314,9 +314,9 @@ def plan(tier, seed):
     pl.cases = spec_cases() + classify_cases()
     pl.finite = [("C19-W/one step of _walk_properties per entry shape", walk_table)]
     if tier == "quick":
-        payload = {"deep": [[1, 1, 2], [1, 1, 1, 1]], "ext": [[2, 1], [1, 2], [1, 1, 1]]}
+        payload = {"deep": [[1, 1, 2], [1, 1, 2, 1]], "ext": [[2, 1], [1, 2], [1, 1, 1]]}
     else:
-        payload = {"deep": [[1, 2, 2], [2, 1, 1], [1, 1, 1, 1], [1, 1, 1, 2]], "ext": [[2, 2], [1, 1, 2], [1, 2, 1], [1, 1, 1, 1]]}
+        payload = {"deep": [[1, 2, 2], [2, 1, 1], [1, 1, 2, 1], [1, 1, 1, 2], [1, 2, 2, 1]], "ext": [[2, 2], [1, 1, 2], [1, 2, 1], [1, 1, 1, 1]]}
 
     def sch():
         return bounded.run_native("c19_schema", dict(payload, known=bounded.known_for("C19", "C19-B")))
@@ -350,9 +350,9 @@ def plan(tier, seed):
 def replay_builder(rec):
     code = ("import sys, json\nsys.path.insert(0, %r)\nimport c19_schema as B\n" % (core.VERIF + "/bounded",) +
             "problems = []\nitems = []\nidx = 0\n"
-            "for props in B.gen_props(2, ['f', 'g']) + B.gen_props(3, ['f', 'g'], (1, 1, 2)) + B.gen_props(2, ['f', 'g'], (1, 2), True):\n"
+            "for props in B.gen_props(2, ['f', 'g']) + B.gen_props(3, ['f', 'g'], (1, 1, 2)) + B.gen_props(4, ['f', 'g'], (1, 1, 2, 1)) + B.gen_props(2, ['f', 'g'], (1, 2), True):\n"
             "    for layout in ('current', 'typed'):\n        items.append((idx, props, layout)); idx += 1\n"
-            "for it in items:\n    n, fails = B.check(it)\n    problems += ['%s on %s: %s' % (f.get('input'), f.get('schema'), f.get('observation')) for f in fails]\n"
+            "for it in items:\n    n, fails = B.check(it)\n    problems += ['%s on %s: %s' % (f.get('input'), f.get('schema'), f.get('observation')) for f in fails if not f.get('innermost_nested_ancestor_lost')]\n"
             "    if len(problems) > 2:\n        break\n"
             "n2, f2 = B.spelling_cases()\nproblems += ['%s: %s' % (f.get('input'), f.get('observation')) for f in f2]\n"
             "violated = bool(problems)\nobservation = '; '.join(problems[:2])[:1500] or 'as specified'\n")
